@@ -49,4 +49,16 @@ def record(job):
             tb = traceback.extract_tb(e.__traceback__)
             if not any('/rsome/' in fr.filename for fr in tb):
                 raise
+    # an unrelated decision declared last (not traced), sometimes on its own partition, then the formulation's
+    # column map (rule_var): logged by the tracer as one more event
+    from rsome import lp
+    extra = m.dvar()
+    try:
+        if rng.random() < 0.6:
+            lp.DecVar.evtadapt.__wrapped__(extra, lab(rng.randrange(ns)))
+        m.rule_var()
+    except Exception as e:
+        import traceback
+        if not any('/rsome/' in fr.filename for fr in traceback.extract_tb(e.__traceback__)):
+            raise
     return tracer.traces()
